@@ -50,6 +50,11 @@ func setupBase(b *base) sdk.Context {
 	lgc := w.Deploy(ctx, w.A("u1"), evmasm.LegacyTokenInit("Legacy Token", "LGC"))
 	w.MustDeliver(ctx, &erc20types.MsgRegisterERC20{Authority: world.GovAuthority(), Erc20Address: lgc.String(), Aliases: []string{"eth" + scen.ExtAddr("eth", "lgc-token")}})
 	b.toks["lgc"] = scen.Token{Name: "lgc", Base: "lgc", Kind: "external", ERC20: lgc, Ext: map[string]string{}, Bridge: map[string]string{}, Decimals: 18}
+	// an externally-owned pair whose token can destroy itself; u1 holds 5 units of its coin
+	mrt := w.Deploy(ctx, w.A("u1"), evmasm.MortalTokenInit("Mortal Token", "MRT"))
+	w.MustDeliver(ctx, &erc20types.MsgRegisterERC20{Authority: world.GovAuthority(), Erc20Address: mrt.String(), Aliases: []string{"eth" + scen.ExtAddr("eth", "mrt-token")}})
+	b.toks["mrt"] = scen.Token{Name: "mrt", Base: "mrt", Kind: "external", ERC20: mrt, Ext: map[string]string{}, Bridge: map[string]string{}, Decimals: 18}
+	w.MustDeliver(ctx, &erc20types.MsgConvertERC20{ContractAddress: mrt.String(), Amount: sdkmath.NewInt(5), Receiver: w.A("u1").Bech(), Sender: w.A("u1").Hex().String()})
 	n := nonces["eth"]
 	for _, u := range []string{"u1", "u2"} {
 		n++
@@ -86,6 +91,10 @@ func (b *base) pairInvariants(ctx sdk.Context, extra []common.Address, report fu
 	pairs := ek.GetAllTokenPairs(ctx)
 	for _, p := range pairs {
 		tokenAddr := p.GetERC20Contract()
+		if acc := w.App.EvmKeeper.GetAccount(ctx, tokenAddr); acc == nil || !acc.IsContract() {
+			// the token contract destroyed itself: its books are gone with it; the pair is removed at the next conversion
+			continue
+		}
 		supply := scen.TotalSupply(w, ctx, tokenAddr)
 		sum := sdkmath.ZeroInt()
 		seen := map[common.Address]bool{}
@@ -137,11 +146,29 @@ func (b *base) pairInvariants(ctx sdk.Context, extra []common.Address, report fu
 			}
 		}
 	}
-	// every alias index entry is backed by metadata of a registered pair
+	// every alias index entry is backed by metadata of a registered pair; every by-denom / by-contract index entry
+	// points to a stored pair of that denom / contract
 	st := scen.Store(w, ctx, erc20types.StoreKey)
 	it := st.Iterator(nil, nil)
 	defer it.Close()
 	for ; it.Valid(); it.Next() {
+		if len(it.Key()) > 1 && (it.Key()[0] == erc20types.KeyPrefixTokenPairByDenom[0] || it.Key()[0] == erc20types.KeyPrefixTokenPairByERC20[0]) {
+			bz := st.Get(append(append([]byte{}, erc20types.KeyPrefixTokenPair...), it.Value()...))
+			okEntry := false
+			if bz != nil {
+				var tp erc20types.TokenPair
+				if err := w.App.AppCodec().Unmarshal(bz, &tp); err == nil {
+					if it.Key()[0] == erc20types.KeyPrefixTokenPairByDenom[0] {
+						okEntry = tp.Denom == string(it.Key()[1:])
+					} else {
+						okEntry = tp.GetERC20Contract() == common.BytesToAddress(it.Key()[1:])
+					}
+				}
+			}
+			if !okEntry {
+				report("indexes-agree", sig("index-entry-without-pair"), fmt.Sprintf("index key %x -> pair id %x: no stored pair of that denom / contract", it.Key(), it.Value()))
+			}
+		}
 		if len(it.Key()) > 0 && it.Key()[0] == erc20types.KeyPrefixAliasDenom[0] && len(erc20types.KeyPrefixAliasDenom) == 1 {
 			alias := string(it.Key()[1:])
 			denom := string(it.Value())
@@ -286,6 +313,42 @@ func (s *Spec) Ops(st *explore.State) []explore.Op {
 	}
 	// the pre-standard token: its holder converts, and an account that holds none of it tries to (transfer answers false)
 	ops = append(ops, s.convOp("u1", "lgc", false, 2, "u1"), s.convOp("u1", "lgc", true, 3, "u1"), s.convOp("u2", "lgc", false, 2, "u2"), s.convOp("u1", "lgc", true, 1, "u2"))
+	// the self-destructible token: anyone kills it; the next conversion finds the contract gone and removes the pair -
+	// accepted or refused, it moves nothing, and afterwards no index names the pair any more
+	mrt := s.b.toks["mrt"]
+	if acc := w.App.EvmKeeper.GetAccount(st.Ctx, mrt.ERC20); acc != nil && acc.IsContract() {
+		ops = append(ops, explore.Op{Name: "Kill(mrt)", Run: func(c *explore.State) {
+			r := w.EthTx(c.Ctx, w.A("u2"), &mrt.ERC20, []byte{0x41, 0xc0, 0xe1, 0xb5}, nil, 300000)
+			c.Accepted = r.Success()
+			c.Outcome = map[bool]string{true: "ok", false: "failed"}[r.Success()]
+		}})
+		ops = append(ops, s.convOp("u1", "mrt", true, 2, "u1"))
+	} else if w.App.Erc20Keeper.IsDenomRegistered(st.Ctx, "mrt") {
+		for _, toERC20 := range []bool{true, false} {
+			toERC20 := toERC20
+			ops = append(ops, explore.Op{Name: fmt.Sprintf("ConvertAfterKill(mrt,to-erc20=%v)", toERC20), Run: func(c *explore.State) {
+				u1 := w.A("u1")
+				before := w.App.BankKeeper.GetAllBalances(c.Ctx, u1.Acc()).String()
+				var r world.MsgResult
+				if toERC20 {
+					r = w.Deliver(c.Ctx, &erc20types.MsgConvertCoin{Coin: sdk.NewInt64Coin("mrt", 1), Receiver: u1.Hex().String(), Sender: u1.Bech()})
+				} else {
+					r = w.Deliver(c.Ctx, &erc20types.MsgConvertERC20{ContractAddress: mrt.ERC20.String(), Amount: sdkmath.NewInt(1), Receiver: u1.Bech(), Sender: u1.Hex().String()})
+				}
+				c.Accepted = r.OK()
+				c.Outcome = map[bool]string{true: "pair-removed", false: "rejected"}[r.OK()]
+				if r.Panic != nil {
+					c.Outcome = "panic"
+				}
+				if after := w.App.BankKeeper.GetAllBalances(c.Ctx, u1.Acc()).String(); after != before {
+					c.Violate("conversion-moves-exactly-the-amount", sig("conversion-with-destroyed-token-moved-coins"), fmt.Sprintf("u1's coins %s -> %s although the token contract is gone", before, after))
+				}
+				if r.OK() && (w.App.Erc20Keeper.IsDenomRegistered(c.Ctx, "mrt") || w.App.Erc20Keeper.IsERC20Registered(c.Ctx, mrt.ERC20)) {
+					c.Violate("indexes-agree", sig("destroyed-token-pair-still-registered-after-accepted-conversion"), "")
+				}
+			}})
+		}
+	}
 	gov := func(name string, msg sdk.Msg) explore.Op {
 		return explore.Op{Name: name, Run: func(c *explore.State) {
 			r := w.Deliver(c.Ctx, msg)
